@@ -3,6 +3,7 @@ from contracts import nsf as N
 from contracts import formulas as F
 
 from contracts import wrappers as W
+from contracts import grammar as G_PF
 ID = "C04"
 LEVEL = "proof"
 TRUSTED = [
@@ -22,7 +23,7 @@ EXPLANATION = ("Deductive: density scaling is a relational obligation on two sym
 def units(tier):
     return ([N.U_CALC, N.U_CALC_SCALE, N.L_DENSITY_SCALING, N.L_COUNT_SCALING, F.L_SUM_HOMOGENEOUS,
             N.U_NS_WAVELENGTH, N.U_NS_ENERGY, N.U_WAVELENGTH, N.U_ENERGY, N.U_WAVELENGTH_V, N.U_ROUNDTRIP,
-            N.U_ANCHOR_E, N.U_ANCHOR_W, N.U_ANCHOR_V, N.U_SBW_PLAIN, N.U_SBW_TABLE] + F.U_FORMULA_OF_FORMULA + [F.U_FORMULA_NEUTRON_SLD]) + [W.U_NSF_NEUTRON_SLD] + [N.U_SUM_PIECE, N.U_COMPUTE_1, N.U_COMPUTE_2, N.U_COMPUTE_3] + N.U_COMPOSITE_OUTER
+            N.U_ANCHOR_E, N.U_ANCHOR_W, N.U_ANCHOR_V, N.U_SBW_PLAIN, N.U_SBW_TABLE] + F.U_FORMULA_OF_FORMULA + [F.U_FORMULA_NEUTRON_SLD]) + [W.U_NSF_NEUTRON_SLD] + [N.U_SUM_PIECE, N.U_COMPUTE_1, N.U_COMPUTE_2, N.U_COMPUTE_3] + N.U_COMPOSITE_OUTER + G_PF.U_PARSE_FORMULA
 
 
 def runner_tasks(tier):
